@@ -1172,7 +1172,25 @@ def geom_bound(g):
 
 
 def run_collapse_all(im, g):
-    """Run collapse_all under a call counter and an alarm. Returns dict(collapses, outcome, left)."""
+    """collapse_all under the CALL COUNTER (the verdict: it is exact, bound of C17_term + 5) and, only as a backstop
+    against a loop that never reaches collapse_one, a timer measured in process CPU time (ITIMER_PROF, not wall clock,
+    so machine load cannot fire it), garbage collection off in the window; a 'hang' is retried once with 4x the budget
+    before it is believed."""
+    if _HANG_CONFIRMED[0]:
+        return _run_collapse_all_once(im, g, 5.0)       # one confirmed hang is the witness; do not pay for the others
+    r = _run_collapse_all_once(im, g, 60.0)
+    if r['outcome'] == 'hang':
+        r = _run_collapse_all_once(im, g, 240.0)
+        r['retried'] = True
+        if r['outcome'] == 'hang':
+            _HANG_CONFIRMED[0] = True
+    return r
+
+
+_HANG_CONFIRMED = [False]
+
+
+def _run_collapse_all_once(im, g, cpu_budget):
     I = im['I']
     top, fsys, spell = build_graph(im, g)
     bound = geom_bound(g)
@@ -1196,8 +1214,11 @@ def run_collapse_all(im, g):
     def on_alarm(*_):
         raise _Alarm()
 
-    old = signal.signal(signal.SIGALRM, on_alarm)
-    signal.alarm(60)
+    import gc
+    gc_was = gc.isenabled()
+    gc.disable()
+    old = signal.signal(signal.SIGPROF, on_alarm)
+    signal.setitimer(signal.ITIMER_PROF, cpu_budget)
     I.collapse_one = counting
     try:
         try:
@@ -1214,8 +1235,10 @@ def run_collapse_all(im, g):
         except Exception as e:
             outcome = f'{type(e).__name__}: {e}'
     finally:
-        signal.alarm(0)
-        signal.signal(signal.SIGALRM, old)
+        signal.setitimer(signal.ITIMER_PROF, 0)
+        signal.signal(signal.SIGPROF, old)
+        if gc_was:
+            gc.enable()
         I.collapse_one = real
     return {'collapses': count[0], 'outcome': outcome, 'left': len(top.by_class['func_instance']),
             'brushes': len(top.brushes), 'bound': bound, 'spell': spell, 'calls': calls}
